@@ -12,8 +12,10 @@
   * `mhOK mh`: a `StringSizeBetween` alphabet is a list of one-character strings (`list(options)`
     of a Python `str` always is);
   * `depsOK deps ty`: the sibling read by a dependent LIST-SIZE refinement is not a negative
-    integer (for `n < 0` `ListSizeBetween(n, n).generate` returns the empty list, whose length is
-    not `n`: the documented predicate is unsatisfiable there, see `C02_negative_size_witness`).
+    integer.  For `n < 0` the documented predicate "length = n" is unsatisfiable: the model
+    (`resolveDep`: `listSize n.toNat n.toNat`) returns the empty list, see
+    `C02_negative_size_witness`; in the real code `ListSizeBetweenWithoutListOperations(n, n)`
+    does the same and `ListSizeBetween(n, n).generate` trips its own `assert len(li) == size`.
 -/
 import GEVerif.Lemmas.WellTyped
 
